@@ -348,7 +348,7 @@ func (g *c02DeclGen) decl(depth int, allowArray bool) map[string]interface{} {
 		n := rapid.IntRange(0, 4).Draw(g.t, g.label("nobj"))
 		children := map[string]interface{}{}
 		for i := 0; i < n; i++ {
-			key := rapid.SampledFrom([]string{"p", "q", "r", "s", "t.u", "v%w", "x y"}).Draw(g.t, g.label("key"))
+			key := rapid.SampledFrom([]string{"p", "q", "r", "s", "t.u", "v%w", "x y", "w%", "%", "a.", ".b", "%.", "c%%", "日"}).Draw(g.t, g.label("key"))
 			children[key] = g.decl(depth+1, true)
 		}
 		d["object"] = children
